@@ -804,6 +804,14 @@ def chain_unit(ctx, u, G, rng, n):
         k = G.ri(0, n_kids - 1)
         if b[k] is not b.bijections[k]:
             errs.append(f"chain[{k}] is not the {k}-th bijection")
+        if len(b) != n_kids or any(p is not q for p, q in zip(list(b), b.bijections)) or len(list(b)) != n_kids:
+            errs.append(f"len(chain) = {len(b)} / iteration over the chain does not yield its {n_kids} bijections in order")
+        for bad_ix in (1.0, "0", (0, 1)):
+            try:
+                b[bad_ix]
+                errs.append(f"chain[{bad_ix!r}] (an index that is neither an int nor a slice) did not raise")
+            except Exception:  # noqa: BLE001
+                pass
         reqs = [f"runmerged {m} {term} {S.s_tensor(x)} {S.s_otensor(c)}" for m in METHODS]
         reqs += [f"runslice {m} {term} {S.s_oint(lo)} {S.s_oint(hi)} {S.s_tensor(x)} {S.s_otensor(c)}" for m in METHODS]
         outs = [S.parse_run(l) for l in ctx.model(reqs)]
